@@ -144,6 +144,8 @@ def extra_checks(v):
 
 
 CFG = """SPECIFICATION Spec
+CONSTANTS
+  Deep = {deep}
 INVARIANT Monotone
 INVARIANT NoStoppingConservesFlux
 INVARIANT Streamline
@@ -154,7 +156,7 @@ INVARIANT EmitCase
 
 
 def run(v):
-    res = core.run_tlc("BeamDensity", CFG, workers=1, seed=v.seed, timeout=1800)
+    res = core.run_tlc("BeamDensity", CFG.format(deep="TRUE" if v.tier == "thorough" else "FALSE"), workers=1, seed=v.seed, timeout=3000)
     core.tlc_must_pass(res, "BeamDensity")
     v.add_tlc(res, "BeamDensity")
     cases = [r for r in res.records if "class" in r]
